@@ -60,13 +60,13 @@ theorem C15_compound_assignment (M : Machine) (F : FnTable) (obj : HostVal) (dep
     cases hl : evalE M obj env (.ident name) out with
     | mk res o1 =>
       cases res with
-      | error y => simp [hl] at h
+      | error y => simp only [hl, failE] at h; split at h <;> cases h
       | ok lv =>
         simp only [hl] at h
         cases hr : evalE M obj env r o1 with
         | mk res2 o2 =>
           cases res2 with
-          | error y => simp [hr] at h
+          | error y => simp only [hr, failE] at h; split at h <;> cases h
           | ok rv =>
             simp only [hr] at h
             cases hb : binop M o lv rv with
